@@ -20,6 +20,16 @@ type MockFactory struct {
 	OnConnect func(url string) error
 	// OnAccept runs inside every Accept call before it starts waiting.
 	OnAccept func(a *MockAcceptor)
+	// Wrap: hand out the library's own transport wrapper NewTransport(conn, r, w) around the recording
+	// transport (which then plays the connection) instead of the recording transport itself.
+	Wrap *[2]int
+}
+
+func (f *MockFactory) wrap(t *RecTransport) transport.Transport {
+	if f.Wrap != nil {
+		return transport.NewTransport(t, f.Wrap[0], f.Wrap[1])
+	}
+	return t
 }
 
 var _ transport.Factory = (*MockFactory)(nil)
@@ -38,7 +48,7 @@ func (f *MockFactory) Connect(o *transport.Options) (transport.Transport, error)
 	f.mu.Lock()
 	f.Transports = append(f.Transports, t)
 	f.mu.Unlock()
-	return t, nil
+	return f.wrap(t), nil
 }
 
 // Listen implements transport.Factory.
@@ -48,7 +58,7 @@ func (f *MockFactory) Listen(o *transport.Options) (transport.Acceptor, error) {
 			return nil, err
 		}
 	}
-	a := &MockAcceptor{f: f, URL: o.Address.String(), ch: make(chan *RecTransport), closed: make(chan struct{}), CreatedTick: Tick()}
+	a := &MockAcceptor{f: f, URL: o.Address.String(), ch: make(chan *RecTransport), closed: make(chan struct{}), fail: make(chan error, 1), CreatedTick: Tick()}
 	f.mu.Lock()
 	f.Acceptors = append(f.Acceptors, a)
 	f.mu.Unlock()
@@ -68,6 +78,7 @@ type MockAcceptor struct {
 	URL         string
 	ch          chan *RecTransport
 	closed      chan struct{}
+	fail        chan error
 	once        sync.Once
 	CreatedTick uint64
 	inAccept    int32
@@ -92,9 +103,20 @@ func (a *MockAcceptor) Accept() (transport.Transport, error) {
 	select {
 	case t := <-a.ch:
 		atomic.AddInt32(&a.accepted, 1)
-		return t, nil
+		return a.f.wrap(t), nil
+	case err := <-a.fail:
+		return nil, err
 	case <-a.closed:
 		return nil, net.ErrClosed
+	}
+}
+
+// FailNext makes the next (or the currently parked) Accept call return err: an accept error that is
+// unrelated to closing the acceptor (EMFILE, a failed handshake...).
+func (a *MockAcceptor) FailNext(err error) {
+	select {
+	case a.fail <- err:
+	default:
 	}
 }
 
